@@ -90,3 +90,59 @@ Section Jsons.
       + exfalso. rewrite map_app in I'. apply in_app_or in I'. destruct I' as [I'|[E|[]]]; [contradiction|]. simpl in E. congruence.
   Qed.
 End Jsons.
+
+(* ---------------------------------------------------------------- one store object, any history of saves and loads *)
+Section Store.
+  Context {A : Type}.
+
+  (* every load of ANY history of saves and loads through one store returns the value of the last save under its name
+     before it -- whatever was loaded or saved earlier through the same object *)
+  Theorem store_latest_wins_from (h : list (sop A)) (past : list (string * A)) :
+    run_store (run_json past) h = spec_store past h.
+  Proof.
+    revert past. induction h as [|[k v|k] h IH]; intro past; simpl; [reflexivity| |].
+    - rewrite <- IH. rewrite run_json_snoc. reflexivity.
+    - rewrite json_latest_wins, IH. reflexivity.
+  Qed.
+
+  Theorem store_latest_wins (h : list (sop A)) : run_store [] h = spec_store [] h.
+  Proof. exact (store_latest_wins_from h []). Qed.
+
+  Lemma saves_of_app (a b : list (sop A)) : saves_of (a ++ b) = saves_of a ++ saves_of b.
+  Proof. unfold saves_of. apply flat_map_app. Qed.
+
+  Lemma spec_store_app (a b : list (sop A)) (past : list (string * A)) :
+    spec_store past (a ++ b) = spec_store past a ++ spec_store (past ++ saves_of a) b.
+  Proof.
+    revert past. induction a as [|[k v|k] a IH]; intro past; simpl.
+    - rewrite app_nil_r. reflexivity.
+    - rewrite IH, <- app_assoc. reflexivity.
+    - rewrite IH. reflexivity.
+  Qed.
+
+  (* pointwise form: in a history h1 ++ [load k] ++ h2 the load returns the last value saved under k in h1; the loads
+     (and saves) of h1 other than the last save under k do not matter *)
+  Theorem store_load_returns_last_save (h1 h2 : list (sop A)) (k : string) :
+    run_store [] (h1 ++ SLoad k :: h2)
+    = run_store [] h1 ++ (k, assoc string_dec k (rev (saves_of h1))) :: run_store (run_json (saves_of h1)) h2.
+  Proof.
+    rewrite !store_latest_wins, store_latest_wins_from, spec_store_app. reflexivity.
+  Qed.
+
+  (* a load through the used object = a fresh reader of the same store (a reader that never loaded anything) *)
+  Theorem store_load_as_fresh_reader (h1 h2 : list (sop A)) (k : string) :
+    nth_error (run_store [] (h1 ++ SLoad k :: h2)) (List.length (run_store [] h1))
+    = Some (k, get_json k (run_json (saves_of h1))).
+  Proof.
+    rewrite store_load_returns_last_save, nth_error_app2 by lia.
+    rewrite Nat.sub_diag, json_latest_wins. reflexivity.
+  Qed.
+
+  (* loads leave the store as it is: dropping every load before a point changes nothing after it *)
+  Theorem store_loads_do_not_matter (h1 h2 : list (sop A)) :
+    run_store (run_json (saves_of h1)) h2 = run_store (run_json (saves_of (filter is_save h1))) h2.
+  Proof.
+    f_equal. f_equal. induction h1 as [|[k v|k] h1 IH]; simpl; [reflexivity| |exact IH].
+    rewrite IH. reflexivity.
+  Qed.
+End Store.
